@@ -192,6 +192,8 @@ type Obs struct {
 	FlushN         int        `json:"-"`
 	FinishErr      string     `json:"finish_err,omitempty"`
 	Abandoned      bool       `json:"abandoned,omitempty"`
+	FailedFlush    bool       `json:"failed_flush,omitempty"`
+	FailedFlushErr string     `json:"failed_flush_err,omitempty"`
 	Out            string     `json:"out"`
 	Panic          string     `json:"panic,omitempty"`
 	PanicSig       string     `json:"-"`
@@ -315,7 +317,17 @@ type LongLived struct {
 	PreFlush bool
 	nreq     int
 	DebugOut DebugSink
+	// Recreate: a new engine is built over the same state and cache objects for every request (in-memory resume with
+	// WithState/WithMemory: the session lives in the client's objects, engines come and go)
+	Recreate bool
+	// FailFirstFlush, if set and true for the request number (1-based), makes the client's writer fail once: Flush is
+	// called with a writer that refuses, and then again with a working one (a connection hiccup and a retry)
+	FailFirstFlush func(n int) bool
 }
+
+type refusingWriter struct{}
+
+func (refusingWriter) Write(p []byte) (int, error) { return 0, fmt.Errorf("write: broken pipe") }
 
 func NewLongLived(a *App, cfg Config) *LongLived {
 	d := &LongLived{Cfg: cfg, Res: NewRecRes(a)}
@@ -324,14 +336,18 @@ func NewLongLived(a *App, cfg Config) *LongLived {
 	if cfg.CacheSize > 0 {
 		d.Ca = d.Ca.WithCacheSize(cfg.CacheSize)
 	}
-	d.En = engine.NewEngine(cfg.Engine(), d.Res).WithState(d.St).WithMemory(d.Ca)
-	if cfg.First && a.Funcs["_first"] != nil {
+	d.build()
+	return d
+}
+
+func (d *LongLived) build() {
+	d.En = engine.NewEngine(d.Cfg.Engine(), d.Res).WithState(d.St).WithMemory(d.Ca)
+	if d.Cfg.First && d.Res.App.Funcs["_first"] != nil {
 		d.En = d.En.WithFirst(d.Res.FirstFunc())
 	}
-	if cfg.Debug {
+	if d.Cfg.Debug {
 		d.En = d.En.WithDebug(engine.NewSimpleDebug(&d.DebugOut))
 	}
-	return d
 }
 
 func (d *LongLived) Request(input []byte) *Obs {
@@ -340,6 +356,10 @@ func (d *LongLived) Request(input []byte) *Obs {
 	d.Res.Take()
 	d.nreq++
 	pv, stack := vk.Guard(func() {
+		if d.Recreate && d.nreq > 1 {
+			d.En.Finish(ctx)
+			d.build()
+		}
 		if d.PreFlush && d.nreq == 1 {
 			var buf bytes.Buffer
 			_, ferr := d.En.Flush(ctx, &buf)
@@ -358,6 +378,13 @@ func (d *LongLived) Request(input []byte) *Obs {
 		}
 		o.ExecEvents = d.Res.Take()
 		if err == nil || d.FlushAfterError {
+			if d.FailFirstFlush != nil && d.FailFirstFlush(d.nreq) {
+				_, werr := d.En.Flush(ctx, refusingWriter{})
+				o.FailedFlush = true
+				if werr != nil {
+					o.FailedFlushErr = werr.Error()
+				}
+			}
 			var buf bytes.Buffer
 			n, ferr := d.En.Flush(ctx, &buf)
 			o.Flushed = true
